@@ -22,7 +22,7 @@ META = {
 LEVEL = META['level']
 RULE = ('a case = one member list executed both ways from one initial state; distinct by (configuration, initial state, bundle bytes); non-trivial = at least two members and at least one write')
 ASSUMPTIONS = ['both executions use the in-process frame pipeline (bytes in, bytes out) with identical configuration and initial values']
-REQUIRED = ['bundle:reply>32KiB', 'members:standard-object', 'bundles', 'members', 'members:failing', 'members:unroutable-alone', 'members:write', 'members:read', 'members:attribute-service', 'bundle:size>=10',
+REQUIRED = ['bundle:same-read-around-attribute-write', 'bundle:reply>32KiB', 'members:standard-object', 'bundles', 'members', 'members:failing', 'members:unroutable-alone', 'members:write', 'members:read', 'members:attribute-service', 'bundle:size>=10',
             'monitor:member-bytes-equal', 'monitor:state-equal', 'monitor:offset-table', 'bundle:overlapping-writes']
 TIMEOUT = {'quick': 300, 'thorough': 2400}
 SOFT = {'quick': 30, 'thorough': 600}
@@ -169,6 +169,11 @@ def big_bundle(ctx, rng):
     run_bundle(ctx, cfg, members, init, {'config': cfg, 'initial': init, 'members': members[:3] + ['... %d reads of 480 bytes ...' % k] + members[-2:], 'big': True})
 
 
+def rc_types():
+    from vlib import refcodec as rc
+    return rc.TYPES
+
+
 def run(ctx):
     from vlib import reqgen
     rng = ctx.rng
@@ -191,6 +196,20 @@ def run(ctx):
             ctx.count('members:standard-object')
         if rng.random() < 0.3 and len(members) > 1:
             members.append(members[rng.randrange(len(members))])      # a duplicate
+        addressed = [e for e in cfg if e[3] and e[1] in rc_types()]
+        if addressed and rng.random() < 0.5:
+            # the same read twice in one bundle with a successful write to the same storage in between, made through ANOTHER service and
+            # another spelling of the target (Set Attribute Single on the numeric address): byte-identical requests need not have identical replies
+            from vlib import gen, refcodec as rc
+            name, t, n_, address = rng.choice(addressed)
+            rd = {'path': {'segment': [{'symbolic': name}]}, 'read_tag': {'elements': min(n_, 5)}} if rng.random() < 0.5 else \
+                {'path': {'segment': [{'symbolic': name}]}, 'read_frag': {'elements': min(n_, 5), 'offset': 0}}
+            cls, ins, att = [int(x, 0) for x in address.split('/')]
+            raw = b''.join(rc.enc_scalar(t, v) for v in gen.typed_values(rng, t, n_))
+            sas = {'path': {'segment': [{'class': cls}, {'instance': ins}, {'attribute': att}]}, 'set_attribute_single': {'data': list(raw)}}
+            at = rng.randrange(len(members) + 1)
+            members[at:at] = [rd, sas, dict(rd)]
+            ctx.count('bundle:same-read-around-attribute-write')
         init = init_values(rng, cfg)
         wit = {'config': cfg, 'initial': {k_: v for k_, v in init.items()}, 'members': members}
         run_bundle(ctx, cfg, members, init, wit)
